@@ -347,6 +347,11 @@ fn execute(prog: Program) -> Outcome {
                     return out;
                 }
             }
+            // (the session ends while the companion creates a database: the clean-up of a session and a writer of the
+            //  databases map at the same instant)
+            if let Some(cc) = comp.as_mut() {
+                cc.send_line(&format!("create-db cx{} tx", n));
+            }
             c.close();
             sleep_ms(10);
             check(&mut out, "<disconnect>", n + 1);
